@@ -5,9 +5,9 @@ tier="$1"; shift
 for seed in "$@"; do
   for p in $(python3 -c "import json;print(' '.join(c['property_id'] for c in json.load(open('MANIFEST.json'))['checks']))"); do
     start=$(date +%s)
-    VERIF_SEED=$seed ./check $p --tier $tier > /tmp/runall_$p.out 2>&1
+    VERIF_SEED=$seed ./check $p --tier $tier > ${RUNALL_OUT:-/tmp}/runall_$p.out 2>&1
     rc=$?
-    echo "seed=$seed rc=$rc $(tail -1 /tmp/runall_$p.out | cut -c1-160)"
-    if [ $rc -ne 0 ]; then grep -A1 "^VIOLATION" /tmp/runall_$p.out | head -8 | cut -c1-400; fi
+    echo "seed=$seed rc=$rc $(tail -1 ${RUNALL_OUT:-/tmp}/runall_$p.out | cut -c1-160)"
+    if [ $rc -ne 0 ]; then grep -A1 "^VIOLATION" ${RUNALL_OUT:-/tmp}/runall_$p.out | head -8 | cut -c1-400; fi
   done
 done
